@@ -210,6 +210,35 @@ def failing_executions(out, tier):
     return n, bad
 
 
+ERROR_PROGRAMS = {
+    "local qubit measured twice": "function main() -> void { qubit anc; x(anc); measure anc; echo(1); h(anc); }\n",
+    "object-owned qubit used after measurement": "class Cell { public qubit q; public constructor() -> Cell = default; }\nfunction main() -> void { Cell c = new Cell(); measure c.q; x(c.q); }\n",
+    "register element": "function main() -> void { qubit pad; qubit[2] r; measure r; h(r[1]); }\n",
+    "through a parameter": "function poke(qubit p) -> void { h(p); }\nfunction main() -> void { qubit anc; bit b = measure anc; poke(anc); }\n",
+    "index out of bounds": "function main() -> void { int[] a = {1, 2}; int k = 5; echo(a[k]); }\n",
+    "null member": "class N { public int v; public constructor() -> N = default; }\nfunction main() -> void { N n = null; echo(n.v); }\n",
+}
+
+
+def cli_error_text(out):
+    """a shot that ends in a runtime error ends the multi-shot run with the diagnostic a single fresh run prints (same text, same position)"""
+    n = bad = 0
+    for name, src in ERROR_PROGRAMS.items():
+        fresh = runner.run_cli(["main.bloch"], {"main.bloch": src}, env={"BLOCH_VERIF_GC": "none"})
+        want = [l for l in (fresh["stderr"] + fresh["stdout"]).split("\n") if "error at" in l]
+        if fresh["rc"] != 1 or len(want) != 1:
+            raise vlib.Infra("error program '%s' does not end with one runtime diagnostic in a fresh run: rc=%s %s" % (name, fresh["rc"], fresh["stderr"][-200:]))
+        for args in (["--shots=2"], ["--shots=5"], ["--shots=3", "--echo=all"], ["--shots=4", "--echo=none"]):
+            n += 1
+            r = runner.run_cli(args + ["main.bloch"], {"main.bloch": src}, env={"BLOCH_VERIF_GC": "none"})
+            got = [l for l in (r["stderr"] + r["stdout"]).split("\n") if "error at" in l]
+            if r["rc"] != 1 or got != want:
+                bad += 1
+                msg = "%s, %s: the run ends with status %s and %s; a fresh single run ends with status 1 and %s" % (name, " ".join(args), r["rc"], got, want)
+                out.violation(msg, {"what": msg, "program": src, "args": args, "stderr": r["stderr"][-600:], "fresh_stderr": fresh["stderr"][-600:]}, "errtext%d" % n)
+    return n, bad
+
+
 def parse_table(lines):
     """(variable, outcome) -> count from the CLI's aggregate table"""
     got = collections.Counter()
@@ -389,6 +418,9 @@ def run(tier, seed):
     nfe, badfe = failing_executions(out, tier)
     nrd += nfe
     badrd += badfe
+    net, badet = cli_error_text(out)
+    cli_checked += net
+    badrd += badet
     for tag, msg, src, r in bad[:8]:
         out.violation(msg, {"what": msg, "program": src, "result": r}, "p%s" % tag)
     cov = {"evaluations": shots_checked + cli_checked + nrd, "run_dependent_shots_compared": nrd, "distinct_nontrivial": len({s for s in srcs.values()}) + len(behs),
